@@ -175,7 +175,12 @@ def evaluate(case, out):
 
     sample = case["sample"]
     try:
-        cards, order, mvr_ph = V.sample_from_manifest(man, list(sample))
+        if len(sample) % 2 == 1:
+            # the sample as the samplers return it: a numpy array of ints (in order of selection)
+            cards, order, mvr_ph = V.sample_from_manifest(man, np.array(sample, dtype=np.int64))
+            out.cls("sample-as-numpy-array")
+        else:
+            cards, order, mvr_ph = V.sample_from_manifest(man, list(sample))
     except Exception as e:  # noqa
         out.lib_exception("sample_from_manifest", e)
         return
